@@ -386,6 +386,12 @@ def correspondence(ctx, obs, quick):
     return res
 
 
+def real_found(ctx):
+    """a concrete failing input that is NOT one of the listed known findings (those must not mask a broken obligation)"""
+    fnd = load_findings()
+    return any(v["found_input"] and not match_finding(v, fnd, ctx.prop) for v in ctx.violations)
+
+
 def run(ctx):
     binp = build_harness(ctx)
     msgs, spans = regen(ctx, ["spectrum", "efficiencies", "pm_integrand", "grid", "hom", "schmidt"])
@@ -407,12 +413,12 @@ def run(ctx):
         correspondence(ctx, obs, quick)
     else:
         ctx.note("correspondence cases skipped: generated model / case tactics did not compile")
-    if (not proved or any(not v["found_input"] for v in ctx.violations)) and not any(v["found_input"] for v in ctx.violations):
+    if (not proved or any(not v["found_input"] for v in ctx.violations)) and not real_found(ctx):
         ctx.log("S5 deep search for a failing input (proof obligations or correspondence are broken)")
         for k in range(2):
             obs2 = run_harness(ctx, binp, ["c07", ctx.seed + 1000 + k, 24, 1])
             oracle(ctx, obs2)
-            if any(v["found_input"] for v in ctx.violations):
+            if real_found(ctx):
                 break
     ctx.cov["rule"] = ("5 phase-matched setups (KTP/BBO/LiNbO3, types 0/1/2, poled and not, collinear and not) plus 4 edit histories of each that break energy conservation at the centre (signal / idler / pump retuned alone); two-source HOM with the sources scaled independently; per setup: envelope at centre, "
                        "± half span, random and far detunings for 5 bandwidths; spectrum functions at in-support points, at every box "
